@@ -83,6 +83,24 @@ CHECKS.update({
          "DESIGN.md §3 C09"),
 })
 
+CHECKS.update({
+ "C18": ("exploration",
+         "exhaustive enumeration of (protocol, shape, payload size, outcome, interceptor behaviour, stats, metadata) on the real Mux with logging interceptors/stats handler; differential against the same call without options",
+         "For every combination the interceptor log must show exactly one call of the right kind with the method's full name and streaming flags, the client must get what the interceptor returned, the stats log must match Tag InHeader Begin (payload|OutHeader)* OutTrailer? End with one End carrying the chain's error and one payload event per message, and pass-through options must leave status, body and headers identical to the option-free mux.",
+         "Payload events are not demanded on WebSocket; error framing after HTTP stream messages is not demanded.",
+         "DESIGN.md §3 C18"),
+ "C19": ("exploration",
+         "exhaustive enumeration of selector lists (<= 2 selectors over all name prefixes, wildcards, siblings, case variants) x services on fresh muxes against the documented selector semantics; differential service-config vs annotation; healthz vs the health server",
+         "Each selector carries its own path; a path is dispatched to a method iff the selector is the method's full name or a trailing wildcard covering it. Every template/kind/body rule behaves identically as service config and as annotation over the near-miss probe set. /v1/healthz (GET and WebSocket watch) and the implicit route report exactly what the health server reports for every service name x status.",
+         "Selector lists that would bind one path to two methods of the registered service are skipped; invalid selectors are not explored.",
+         "DESIGN.md §3 C19"),
+ "C20": ("exploration",
+         "exhaustive enumeration of mount pattern sets (<= 3 of 6) x extra handlers x request prefixes x inner paths x protocols through NewServer's handler, differential against the bare mux on the stripped path",
+         "For every accepted pattern set the response (status, headers, trailers, body, handler invocations) for prefix+path through the server handler equals the bare mux's response for path; paths outside every mount never reach the mux and are 404; extra handlers receive exactly their patterns.",
+         "ServeMux redirects (bare prefix, unclean paths) are not demanded; the h2c wrapper is exercised only for non-upgrade requests.",
+         "DESIGN.md §3 C20"),
+})
+
 NOT_YET = {}
 
 def main():
